@@ -8,13 +8,23 @@ headers; a branch saved again after pruning is merged with its earlier file so t
 full history (`C11_merge_keeps_history`); Save writes the index naming every tracked branch in
 order, after the branch files (C12); the invalid list round-trips (C17_persists_list,
 C17_save_writes_list); loading storage without an index starts from genesis; the 112-byte
-record, 1000 records per file and format versions are the extracted constants. That the LOADED
-repository reports the same observations (`obs (load (save r)) = obs r`) is checked on every
-generated history by the correspondence (`dump; save; load; dump`, small and real depths,
-repeated generations) and is not yet a theorem (`_partial`).
+record, 1000 records per file and format versions are the extracted constants.
+
+For every LINEAR chain (a repository reached by submissions from genesis that holds one branch —
+a node that never saw a fork — of any length, across file boundaries) and every load depth ≥ 0,
+`C11_save_load_linear`: Save succeeds, Load of what it wrote succeeds, and the loaded repository
+reports the same tip (height, hash, work), the same header at EVERY height ≥ 0 (in memory above
+the load depth, from the main-chain files below it), the same height for EVERY hash (pruned
+headers through `loadHistoricalHashHeights`, whose file reading is specified exactly; unknown
+hashes stay unknown), and the stored invalid list merged with the configured one. With side
+branches (sorting and linking of the loaded branches), repeated generations and consolidations
+the observational equivalence is checked on every generated history by the correspondence
+(`dump; save; load; dump`, small and real depths) and is not yet a theorem (`_partial`).
 -/
+import BRV.Props.C10
 import BRV.Props.C12
 import BRV.Props.C17
+import BRV.Proofs.RepoSaveLoad
 
 namespace BRV.Repo
 
@@ -87,5 +97,37 @@ theorem C11_format_constants :
 
 example : (load ({} : Repo) 10000 { id := 0, prev := 99, bits := 0x1d00ffff, time := 1 }).1.branches = [0] :=
   (C11_load_empty {} 10000 _ rfl rfl (by decide)).2.1
+
+/-- **C11 (Save then Load restores the same repository — linear chains, any load depth).** -/
+theorem C11_save_load_linear (r : Repo) (hl : Linear r) (depth : Int) (hd : 0 ≤ depth) (g : Hdr) :
+    ∃ rs rl, save r = (rs, none) ∧ load rs depth g = (rl, none) ∧
+      tipHeight rl = tipHeight r ∧ tipId rl = tipId r ∧ tipWork rl = tipWork r ∧
+      (∀ k : Int, 0 ≤ k → headerAt rl k = headerAt r k) ∧ (∀ id, hashHeight rl id = hashHeight r id) ∧
+      rl.invalid = mergedInvalid rs.store rs.cfg ∧ rs.store.invalid = some r.invalid :=
+  save_load_linear r hl depth hd g
+
+/-- what Save writes for such a chain, exactly: header `k` is record `k % 1000` of main file
+    `k / 1000` and nothing else is in those files; one branch file; the index naming it. -/
+theorem C11_save_writes_linear (r : Repo) (hl : Linear r) :
+    ∃ rs : Repo, save r = (rs, none) ∧
+      FilesExact rs.store.main (r.br 0).headers ((r.br 0).headers.length / H + 1) ∧
+      rs.store.branches = [((r.br 0).first.id, rootFile (r.br 0))] ∧
+      rs.store.index = some [(r.br 0).first.id] ∧ rs.store.invalid = some r.invalid := by
+  obtain ⟨rs, h1, h2, h3, h4, h5, _⟩ := save_linear r hl
+  exact ⟨rs, h1, h2, h3, h4, h5⟩
+
+/-- the hypotheses are met: genesis plus three accepted headers is a linear chain. -/
+example : Linear exC10 := by
+  have hq : NoAutoClean genesisRepo [({ id := 1, prev := 0, bits := 0x1d00ffff, time := 2 }, true),
+      ({ id := 2, prev := 1, bits := 0x1d00ffff, time := 3 }, true), ({ id := 3, prev := 2, bits := 0x1d00ffff, time := 4 }, true)] :=
+    noAutoClean_of_B _ _ (by decide)
+  refine ⟨streamWF_submitAll _ _ genesisRepo_streamWF hq,
+    heightsComplete_submitAll _ _ genesisRepo_wf genesis_heightsComplete hq, by decide, by decide, rfl, ?_⟩
+  intro d hd
+  have : (exC10.br 0).headers[0]? = some { hdr := { id := 0, prev := 99, bits := 0x1d00ffff, time := 1 }, work := 4295032833 } := by decide
+  rw [this] at hd
+  simp only [Option.some.injEq] at hd
+  subst hd
+  rfl
 
 end BRV.Repo
